@@ -643,7 +643,7 @@ func runC15(c *ctx) {
 	}
 	runBatch := func(idx []int, attempt int) {
 		var wg sync.WaitGroup
-		sem := make(chan struct{}, 16)
+		sem := make(chan struct{}, vlib.Conc(16))
 		for _, i := range idx {
 			wg.Add(1)
 			sem <- struct{}{}
